@@ -29,6 +29,7 @@ import CtyModel.Lemmas.d14Json
 import CtyModel.Lemmas.d14Glue
 import CtyModel.Lemmas.d14Dispatch
 import CtyModel.Lemmas.d14bRef
+import CtyModel.Lemmas.d14bJoin
 import CtyModel.Props.C02
 namespace CtyModel
 namespace C14
@@ -1225,6 +1226,46 @@ theorem pow_total_on_integer_power_or_nonnegative_base (x y : Num) (h : y.isInt 
   rcases h with h | h
   · simp [powNaN, h]
   · simp [powNaN, h]
+
+open D14b in
+/-- No piece of a split contains the (non-empty) separator: with `split_join_inverse` this is
+the full reference statement of `strings.Split` — the only list of separator-free pieces that
+joins back to the string. -/
+theorem split_pieces_free_of_separator (s sep : List Char) (hsep : sep ≠ []) :
+    ∀ p ∈ goSplit s sep, goIndex sep p = none := goSplit_pieces hsep s
+
+open D14b in
+/-- `join` over any number of lists of known strings is `strings.Join` of all their members in
+order (`String.intercalate` IS the transliterated `strings.Join`), re-normalised; with no list at
+all it is the documented error (a null member: `join_null_member`). -/
+theorem join_reference (L : Lib) (sep : String) (xss : List (List String)) (h : xss ≠ []) :
+    joinImpl L (sv sep :: xss.map strList) = .ok (stringVal L.nfc (sep.intercalate xss.flatten)) ∧
+    (sep.intercalate xss.flatten).toList = goJoin sep.toList (xss.flatten.map String.toList) ∧
+    joinImpl L [sv sep] = .err "at least one list is required" :=
+  ⟨joinImpl_strLists L sep xss h, intercalate_toList sep _, joinImpl_no_list L sep⟩
+
+open D14b in
+/-- `join(sep, split(sep, s)) = s` through the two `Impl`s, for every separator, whenever the
+pieces are in normal form (NFC leaves substrings of a normalised string alone; the harness
+observes every result to be a fixed point of NFC). -/
+theorem join_inverts_split (L : Lib) (sep s : String) (r : Value)
+    (hp : ∀ p ∈ (goSplit s.toList sep.toList).map String.ofList, L.nfc p = p)
+    (hr : splitImpl (refLib L) [sv sep, sv s] = .ok r) :
+    joinImpl L [sv sep, r] = .ok (stringVal L.nfc s) := join_split_roundtrip L sep s r hp hr
+
+open D14b in
+/-- `chomp` removes exactly the trailing run of CR / LF characters: from "m · run" with `m` not
+ending in one, `m` is left. -/
+theorem chomp_spec (m r : List Char) (hr : ∀ c ∈ r, isNewline c = true)
+    (hm : ∀ c, m.getLast? = some c → isNewline c = false) : chompChars (m ++ r) = m :=
+  dropRight_middle isNewline m r hr hm
+
+open D14b in
+example : joinImpl ⟨id, fun _ => [], id, id, id, id, fun a _ => a, fun a _ => a, fun a _ => a, fun a _ _ => a, fun _ _ => [],
+    fun _ => none, fun _ a _ => a, fun _ _ => none, fun _ _ => [], fun _ => none, fun _ => false, fun a _ => a, fun _ => none,
+    fun _ _ => ⟨[], false⟩, fun v _ => v, fun v _ => v, fun _ => "", id⟩ [sv "-", strList ["a", "b"], strList [], strList ["c"]] =
+    .ok (sv "a-b-c") := by decide
+example : chompChars "ab\r\n\n\r".toList = "ab".toList ∧ chompChars "a\nb".toList = "a\nb".toList := by decide
 
 -- d14b examples: the hypotheses are jointly satisfiable, and the functions compute
 open D14b in
